@@ -443,5 +443,15 @@ class Ctx:
         sys.stdout.flush()
         sys.stderr.flush()
         _cleanup_workdir()
+        if os.environ.get("VERIF_SELFTEST") and "coverage" in sys.modules:   # tools/coverage_audit.sh: os._exit skips atexit
+            try:
+                import coverage
+
+                cov = coverage.Coverage.current()
+                if cov is not None:
+                    cov.stop()
+                    cov.save()
+            except Exception:  # noqa: BLE001
+                pass
         # numba/omp teardown can be slow or noisy; results are on disk.
         os._exit(code)
